@@ -422,6 +422,10 @@ def run_check(chk, tier, replay=None):
     else:
         cases = chk.gen(tier, rng)
     lines = [c.line for c in cases]
+    if os.environ.get("VERIF_DUMP_CASES"):
+        # dev aid (lib/coverage.sh): keep the case lines so that an instrumented harness can replay them
+        os.makedirs(os.path.join(BUILD, "cases"), exist_ok=True)
+        open(os.path.join(BUILD, "cases", pid + ".lines"), "w").write("\n".join(lines) + "\n")
     impl = {prof: run_impl(bins[prof], lines, peak=chk.peak, timeout=chk.impl_timeout) for prof in chk.profiles}
     model = ctx.model_many(lines)
     for l, r in zip(lines, model):
